@@ -211,6 +211,13 @@ theorem deb_compare_hang_iff (v1 v2 : VerDeb.Version) :
        (v1.upstream = v2.upstream ∧ v1.revision ≠ v2.revision ∧
         VerDeb.partOrd v1.revision v2.revision = .eq)) := VerDeb.compare_none_iff v1 v2
 
+/-- The model's "does not return" is not an artefact of its iteration bound:
+    when `compare(a, b)` is modelled as not returning, the loop
+    `for i := 0; ; i++` finds no exit within any number of iterations. -/
+theorem deb_hang_for_every_bound (a b : Str) (h : VerDeb.comparePart a b = none) (fuel : Nat) :
+    VerDeb.cmpLoop fuel (VerDeb.strings a) (VerDeb.strings b) (VerDeb.numbers a) (VerDeb.numbers b) = none :=
+  VerDeb.comparePart_none_forever h fuel
+
 /-- The inner `compareString` loop (which also has no exit but a difference)
     does terminate: `order` is injective and never 0, so different strings differ
     at some position. -/
